@@ -813,6 +813,11 @@ class Convert(OpSpec):
                 out.note = ("convert", cname, "keycount-undetermined")
                 return out
             unexpected(out, "C08", "I3.convert", f"{cname}.convert", res)
+            if h.meta.get("src_den") is not None:
+                # read -> convert -> write (C09): a converter that raises on a chart freshly read from an in-domain file
+                # means no target file is produced at all
+                out.fail("C09", "I3.pipeline.convert", f"{cname}.convert raised {res.exc_name} on a chart read from a {h.meta.get('src_game')} file: "
+                                                       f"{str(res.exc)[:200]} at {res.where}")
             return out
         val = res.value
         # ---- shape: one target chart per source chart
